@@ -214,6 +214,12 @@ OPS = {
     "de.setdefault": lambda o: o.de.setdefault("n", 4),
     "se.update": lambda o: o.se.update([2, 4, 6]),
     "se ^=": lambda o: o.se.__ixor__({2, 8}),
+    # the METHOD forms, with operands that overlap the current members and bring several new items
+    "se.symmetric_difference_update": lambda o: o.se.symmetric_difference_update([2, 8, 10]),
+    "se |=": lambda o: o.se.__ior__({2, 8, 10}),
+    "le +=": lambda o: o.le.__iadd__([6, 8]),
+    "le.insert": lambda o: o.le.insert(0, 6),
+    "de |=": lambda o: o.de.__ior__({"b": 4, "c": 6}),
     "u set via 1st": lambda o: setattr(o, "u", 4),
     "u set via 2nd": lambda o: setattr(o, "u", "s"),
     "ei via 2nd": lambda o: setattr(o, "ei", "s"),
